@@ -300,7 +300,7 @@ pub fn run(ctx: &Ctx) -> i32 {
     }
     acc.finish(
         "exploration",
-        "G-wt multi-module workspaces with shadowing on disk; the real oal-lsp is asked prepareRename at the start and middle of every identifier occurrence (uses of declarations, parameters, rec binders, builtins, qualifiers of uses, declaration names, binders, import qualifiers) and at random positions (<=40 probes per workspace); wherever a range is offered, textDocument/rename to a fresh name (an @-name for @-identifiers), edits checked (non-overlapping, each holding exactly the old name), applied by an independent client-side UTF-16 model, and both versions compiled with the real oal-cli and compared up to generated names (for an @name: with that component renamed); server liveness after every request; non-trivial = every workspace; distinct by source hash",
+        "G-wt multi-module workspaces with shadowing on disk; the real oal-lsp is asked prepareRename at the start and middle of every identifier occurrence (uses of declarations, parameters, rec binders, builtins, qualifiers of uses, declaration names, binders, import qualifiers) and at random positions (<=40 probes per workspace); wherever a range is offered, textDocument/rename to a fresh name (an @-name for @-identifiers), edits checked (non-overlapping, each holding exactly the old name), applied by an independent client-side UTF-16 model, and both versions compiled with the real oal-cli and compared up to generated names (for an @name: with that component renamed); server liveness after every request; every other session first opens each module with an unsaved draft of another line layout, issues requests in it and closes it without saving; an offered rename of an @reference must rename the component whatever part of the variable the cursor is on; non-trivial = every workspace; distinct by source hash",
         if ctx.quick() { 30 } else { 300 },
         false,
         &["fresh names never clash with existing identifiers"],
